@@ -19,10 +19,12 @@ inductive Phase where
 
 inductive Call where
   | validate | count | dup | registerNoTarget | dupListenerUnknown | stop
+  | dupListenerKnown      -- DupListener with the network and address of one of the listeners
   deriving Repr, DecidableEq
 
 inductive Res where
   | nil | empty | inShutdown | invalidAddr | minusOne | number
+  | unsupported           -- errorx.ErrUnsupportedOp
   deriving Repr, DecidableEq
 
 /-- `Engine.Validate` -/
@@ -42,6 +44,11 @@ def api (ph : Phase) : Call → Res
     else .invalidAddr                        -- context without connection or address
   | .dupListenerUnknown => if validate ph ≠ .nil then validate ph else .invalidAddr
   | .stop => validate ph                     -- a running engine: see the small-step system
+  | .dupListenerKnown => validate ph
+
+/-- the control API of an engine with more than one listener (`Rotate`): `Dup` cannot choose -/
+def apiMulti (ph : Phase) (c : Call) : Res :=
+  if c = .dup ∧ validate ph = .nil then .unsupported else api ph c
 
 /-! ### Part 2: shutdown as a small-step system -/
 
@@ -183,20 +190,23 @@ def phaseOf : String → Option Phase
 
 def resStr : Res → String
   | .nil => "nil" | .empty => "empty" | .inShutdown => "inshutdown" | .invalidAddr => "invalidaddr"
-  | .minusOne => "-1" | .number => "n"
+  | .minusOne => "-1" | .number => "n" | .unsupported => "unsupported"
 
 def callOf : String → Option Call
   | "validate" => some .validate | "count" => some .count | "dup" => some .dup
   | "register-notarget" => some .registerNoTarget | "duplistener-unknown" => some .dupListenerUnknown
   | "stop" => some .stop
+  | "duplistener-known" => some .dupListenerKnown
   | _ => none
 
 /-- one token; `none` = rejected, with the reason -/
-def acceptTok (bootShutdown : Bool) (a : Acc) : Tok → Except String Acc
+def acceptTok (bootShutdown : Bool) (multi : Bool) (a : Acc) : Tok → Except String Acc
   | .api ph call res =>
     if call = "register-result" then (if res = "1" then .ok a else .error s!"Register delivered {res} results")
     else match phaseOf ph, callOf call with
-      | some p, some c => if resStr (api p c) = res then .ok a else .error s!"{call} in phase {ph} returned {res}, the table says {resStr (api p c)}"
+      | some p, some c =>
+        let want := if multi then apiMulti p c else api p c
+        if resStr want = res then .ok a else .error s!"{call} in phase {ph} returned {res}, the table says {resStr want}"
       | _, _ => .error s!"unknown api probe {ph} {call}"
   | .boot => if a.booted then .error "OnBoot twice" else .ok { a with booted := true }
   | .shutdown =>
@@ -219,7 +229,7 @@ def acceptTok (bootShutdown : Bool) (a : Acc) : Tok → Except String Acc
     else if ¬ bootShutdown ∧ a.shutdowns ≠ 1 then .error "Run returned without OnShutdown"
     else .ok { a with returned := true }
 
-def acceptTrace (bootShutdown : Bool) (toks : List Tok) : Except String Acc :=
-  toks.foldlM (acceptTok bootShutdown) {}
+def acceptTrace (bootShutdown : Bool) (multi : Bool) (toks : List Tok) : Except String Acc :=
+  toks.foldlM (acceptTok bootShutdown multi) {}
 
 end Gnet.Engine
